@@ -10,6 +10,7 @@ from optlang.symbolics import Zero
 
 from ..core import Configuration, get_solution
 from ..util import ProcessPool
+from ..util import _verif
 from ..util import solver as sutil
 from .deletion import single_gene_deletion, single_reaction_deletion
 from .helpers import normalize_cutoff
@@ -62,6 +63,7 @@ def _fva_step(reaction_id: str) -> Tuple[str, float]:
     global _model
     global _loopless
     rxn = _model.reactions.get_by_id(reaction_id)
+    _verif.point("fva.begin", rid=reaction_id, model=_model)
     # The previous objective assignment already triggers a reset
     # so directly update coefs here to not trigger redundant resets
     # in the history manager which can take longer than the actual
@@ -85,6 +87,7 @@ def _fva_step(reaction_id: str) -> Tuple[str, float]:
     _model.solver.objective.set_linear_coefficients(
         {rxn.forward_variable: 0, rxn.reverse_variable: 0}
     )
+    _verif.point("fva.end", rid=reaction_id, value=value, model=_model)
     return reaction_id, value
 
 
